@@ -60,8 +60,13 @@ def prepare():
     p = os.path.join(d, 'Cargo.toml')
     if not os.path.exists(p) or open(p).read() != toml:
         open(p, 'w').write(toml)
-    if not os.path.exists(os.path.join(d, 'Cargo.lock')):
-        shutil.copy(os.path.join(REPO, 'Cargo.lock'), os.path.join(d, 'Cargo.lock'))
+    # cargo rewrites the copied lock file (adds `vk`, drops unused workspace members): remember which repo lock it came from
+    lock_src = os.path.join(REPO, 'Cargo.lock')
+    stamp = os.path.join(d, 'Cargo.lock.from')
+    h = hashlib.sha256(open(lock_src, 'rb').read()).hexdigest() if os.path.exists(lock_src) else 'none'
+    if os.path.exists(lock_src) and (not os.path.exists(os.path.join(d, 'Cargo.lock')) or not os.path.exists(stamp) or open(stamp).read() != h):
+        shutil.copy(lock_src, os.path.join(d, 'Cargo.lock'))
+        open(stamp, 'w').write(h)
     return d
 
 
